@@ -80,6 +80,7 @@ type probeCounts struct {
 	ParseOK, ParseFail int64
 	Panics             int64
 	MutatingOnObj      int64 // mutating operations on one object (history length measure)
+	PoolOutstanding    int64 // pooled objects taken and not put back when the run was over (O5, informational)
 }
 
 func (a *probeCounts) add(b *probeCounts) {
